@@ -485,6 +485,18 @@ class Gen:
                     ("bin", "+", ("bin", "%", ("intr1", "abs", ("intr1", "floor", self.simple(sc))), ("num", 40)), ("num", 100)))
         return self.read(sc, depth)
 
+    def has_call(self, e):
+        if not isinstance(e, tuple):
+            return False
+        if e and e[0] == "call":
+            return True
+        for x in e[1:]:
+            if isinstance(x, tuple) and self.has_call(x):
+                return True
+            if isinstance(x, list) and any(self.has_call(y) for y in x):
+                return True
+        return False
+
     def nonconst(self, e):
         k = e[0]
         if k in ("num",):
@@ -535,7 +547,9 @@ class Gen:
                     [("num", signed_crc(prefab)), ("num", signed_crc(nm)), ("num", LT(lt)), e])
         if k == 8:
             pin = r.randint(0, 5)
-            a = self.simple(sc)
+            # Python evaluates the right-hand side before the subscript: keep the address free of
+            # anything a call inside the value could change
+            a = self.simple(sc) if not self.has_call(e) else ("num", r.randint(0, 9))
             return ("effect", "EKput", f"Stack(d{pin})[{{2}}] = {{3}}", [("num", 0), ("num", pin), a, e])
         pin, lt = r.randint(0, 5), r.choice(LOGIC)
         return ("effect", "EKs", f"d{pin}.{lt} = {{3}}", [("num", 0), ("num", pin), ("num", LT(lt)), e])
